@@ -33,6 +33,15 @@ struct AccCase {
     /// precede the access by a VALID access through the same base register, offset and width
     /// (then re-point the register with a plain mov): a bounds check must not be reused
     warm: bool,
+    /// how the base register is re-pointed at the target after the valid ("warm") access:
+    /// 0 = mov from another register, 1 = lddw, 2 = reloaded from a stack slot, 3 = return value of
+    /// a helper call (base register r0), 4 = result of `ldabsb 0` (base register r0; the target is
+    /// then pkt[0] + off), 5 = xor with itself then add. A bounds check remembered for a register
+    /// must be forgotten whichever instruction rewrites the register.
+    repoint: u8,
+    /// width of the warm access: 0 = same as the access under test, else this width (a check
+    /// remembered for a wider access must not cover a later access elsewhere)
+    warm_width: u8,
     /// load the program through new(None) + register ranges + set_program instead of new(prog)
     via_set_program: bool,
     /// stack targets only: 0 = base is a computed copy of r10 (mov + add), 1 = r10 itself is the
@@ -82,6 +91,11 @@ fn opcode_for(acc: Acc, width: u8) -> u8 {
 }
 
 const STORE_VAL: u64 = 0x1122_3344_5566_7788;
+/// helper registered on every VM of the sweep: returns its first argument
+const RET_A1_ID: u32 = 77;
+fn ret_a1(a: u64, _b: u64, _c: u64, _d: u64, _e: u64) -> u64 {
+    a
+}
 const ST_IMM: i32 = 0x5a6b7c8d;
 
 fn build_prog(c: &AccCase, pkt_base: u64) -> Vec<u8> {
@@ -113,9 +127,12 @@ fn build_prog(c: &AccCase, pkt_base: u64) -> Vec<u8> {
                         v.push(Insn::new(STDW, 10, 0, -64, 0x5151));
                         v.push(Insn::new(LDDW, 5, 0, 0, b as u32 as i32));
                         v.push(Insn::new(0, 0, 0, 0, (b >> 32) as u32 as i32));
+                        if c.repoint == 2 {
+                            v.push(Insn::new(STXDW, 10, 5, -80, 0));
+                        }
                         v.push(Insn::new(MOV64_REG, 2, 10, 0, 0));
                         v.push(Insn::new(ADD64_IMM, 2, 0, 0, -64 - c.off as i32));
-                        let opc = opcode_for(c.acc, c.width);
+                        let opc = opcode_for(c.acc, if c.warm_width != 0 { c.warm_width } else { c.width });
                         match c.acc {
                             Acc::Ldx => v.push(Insn::new(opc, 0, 2, c.off, 0)),
                             Acc::St => v.push(Insn::new(opc, 2, 0, c.off, ST_IMM)),
@@ -125,7 +142,24 @@ fn build_prog(c: &AccCase, pkt_base: u64) -> Vec<u8> {
                                 v.push(Insn::new(opc, 2, 4, c.off, 0));
                             }
                         }
-                        v.push(Insn::new(MOV64_REG, 2, 5, 0, 0));
+                        match c.repoint {
+                            1 => {
+                                v.push(Insn::new(LDDW, 2, 0, 0, b as u32 as i32));
+                                v.push(Insn::new(0, 0, 0, 0, (b >> 32) as u32 as i32));
+                            }
+                            2 => v.push(Insn::new(LDXDW, 2, 10, -80, 0)),
+                            3 => {
+                                // (the base register role is played by r0: see `regs`)
+                                v.push(Insn::new(MOV64_REG, 1, 5, 0, 0));
+                                v.push(Insn::new(CALL, 0, 0, 0, RET_A1_ID as i32));
+                            }
+                            4 => v.push(Insn::new(0x30, 0, 0, 0, 0)), // ldabsb 0
+                            5 => {
+                                v.push(Insn::new(XOR64_REG, 2, 2, 0, 0));
+                                v.push(Insn::new(ADD64_REG, 2, 5, 0, 0));
+                            }
+                            _ => v.push(Insn::new(MOV64_REG, 2, 5, 0, 0)),
+                        }
                     } else {
                         v.push(Insn::new(LDDW, 2, 0, 0, b as u32 as i32));
                         v.push(Insn::new(0, 0, 0, 0, (b >> 32) as u32 as i32));
@@ -723,11 +757,11 @@ pub fn run(a: &Args, rep: &mut Report, cl: bool) {
                     if tt.wrapping_sub(pkt_base) > u32::MAX as u64 {
                         continue;
                     }
-                    cases.push(AccCase { acc, width, target: t, off: 0, tag: tname, warm: false, via_set_program: rng.chance(1, 4), direct: 0, src_field: 0, regs: (2, 4, 0) });
+                    cases.push(AccCase { acc, width, target: t, off: 0, tag: tname, warm: false, repoint: 0, warm_width: 0, via_set_program: rng.chance(1, 4), direct: 0, src_field: 0, regs: (2, 4, 0) });
                 }
                 Acc::LdInd => {
                     let Target::Abs(_) = t else { continue };
-                    cases.push(AccCase { acc, width, target: t, off: off.max(0), tag: tname, warm: false, via_set_program: rng.chance(1, 4), direct: 0, src_field: 0, regs: (2, 4, 0) });
+                    cases.push(AccCase { acc, width, target: t, off: off.max(0), tag: tname, warm: false, repoint: 0, warm_width: 0, via_set_program: rng.chance(1, 4), direct: 0, src_field: 0, regs: (2, 4, 0) });
                 }
                 _ => {
                     // stack targets: half of them addressed through r10 itself (or an unmodified
@@ -762,7 +796,21 @@ pub fn run(a: &Args, rep: &mut Report, cl: bool) {
                         if b == sreg || d == b { (b, 4, 0) } else { (b, sreg, d) }
                     };
                     let src_field = if acc == Acc::Stx && src_field == 4 { 4 } else { src_field };
-                    cases.push(AccCase { acc, width, target: t, off, tag: tname, warm, via_set_program: rng.chance(1, 4), direct, src_field, regs })
+                    // warm cases: how the base register is re-pointed, and the width of the warm access
+                    let mut repoint = if warm { rng.below(6) as u8 } else { 0 };
+                    if repoint == 4 && (l.pkt.is_none() || !matches!(t, Target::Abs(_))) {
+                        repoint = 0;
+                    }
+                    let is_abs = matches!(t, Target::Abs(_));
+                    let (t, tname) = if warm && repoint == 4 && is_abs {
+                        // r0 = first packet byte (3, see `reset`): the access goes to 3 + off
+                        (Target::Abs((3i64 + off as i64) as u64), "after-ldabs".to_string())
+                    } else {
+                        (t, tname)
+                    };
+                    let regs = if warm && is_abs && (repoint == 3 || repoint == 4) { (0, regs.1, 0) } else { regs };
+                    let warm_width = if warm && rng.chance(1, 3) { 8 } else { 0 };
+                    cases.push(AccCase { acc, width, target: t, off, tag: tname, warm, repoint, warm_width, via_set_program: rng.chance(1, 4), direct, src_field, regs })
                 }
             }
         }
@@ -828,6 +876,7 @@ pub fn run(a: &Args, rep: &mut Report, cl: bool) {
                     for r in &l.ranges {
                         vm.register_allowed(r.clone());
                     }
+                    vm.register_helper(RET_A1_ID, ret_a1)?;
                     hooks::reset(10_000, false);
                     let pk = l.pkt.as_ref().map(|p| (p.addr() as *mut u8, p.len())).unwrap_or((std::ptr::null_mut(), 0));
                     vm.exec(pk, (std::ptr::null_mut(), 0))
@@ -846,12 +895,14 @@ pub fn run(a: &Args, rep: &mut Report, cl: bool) {
                         vm.register_allowed(r.clone());
                     }
                     vm.set_program(prog, (0, 8)).map_err(|e| format!("REJECTED {e}"))?;
+                    vm.register_helper(RET_A1_ID, ret_a1).map_err(|e| format!("REJECTED helper: {e}"))?;
                     vm
                 } else {
                     let mut vm = Vm::new(l.kind, Some(prog), (0, 8)).map_err(|e| format!("REJECTED {e}"))?;
                     for r in &l.ranges {
                         vm.register_allowed(r.clone());
                     }
+                    vm.register_helper(RET_A1_ID, ret_a1).map_err(|e| format!("REJECTED helper: {e}"))?;
                     vm
                 };
                 hooks::reset(10_000, false);
@@ -918,7 +969,7 @@ pub fn run(a: &Args, rep: &mut Report, cl: bool) {
             done += 1;
             let cell = format!("{:?}{}:{}", c.acc, c.width, c.tag);
             rep.set("cells", cell.clone());
-            let w = json!({"kind": "access-case", "layout": l.desc, "access": format!("{:?}", c.acc), "width": c.width, "target": format!("{:?}", c.target), "off": c.off, "warm": c.warm, "via_set_program": c.via_set_program, "region": c.tag, "prog": hex(prog),
+            let w = json!({"kind": "access-case", "layout": l.desc, "access": format!("{:?}", c.acc), "width": c.width, "target": format!("{:?}", c.target), "off": c.off, "warm": c.warm, "repoint": c.repoint, "warm_width": c.warm_width, "via_set_program": c.via_set_program, "region": c.tag, "prog": hex(prog),
                 "regions": regs.iter().map(|(n, s, l)| format!("{n}@{s:#x}+{l}")).collect::<Vec<_>>()});
             let rec = match e {
                 CaseEnd::Done(b) => b,
